@@ -241,7 +241,7 @@ def shard_obs_trace(trace, cases):
     return shards
 
 
-def validate_obs(run, trace, rules, what, max_rejects=6, spec="Trace_XtObs", devs=None):
+def validate_obs(run, trace, rules, what, max_rejects=6, spec="Trace_XtObs", devs=None, cfg=None):
     """Validates a recorded XtObs trace with TLC.  A rejected case is reported as a violation,
     cut out of the trace, and validation continues with the rest.  Large traces are validated
     in pieces, several TLC processes side by side."""
@@ -258,7 +258,7 @@ def validate_obs(run, trace, rules, what, max_rejects=6, spec="Trace_XtObs", dev
         base = cur
         local_rejects = 0
         while True:
-            r = common.validate_trace(spec + ".tla", spec + ".cfg", cur, env=env, tag="%s-%s-%s" % (spec, run.pid, os.path.basename(base)[-12:]),
+            r = common.validate_trace(spec + ".tla", cfg or (spec + ".cfg"), cur, env=env, tag="%s-%s-%s" % (spec, run.pid, os.path.basename(base)[-12:]),
                                       timeout=3600 if len(shards) > 1 else 900)
             devs_seen = set()
             for l in r["out"].split("\n"):
@@ -366,7 +366,7 @@ def c02(run):
     gen = run_tlc("XtTokens.tla", _q(run, "XtTokens_2.cfg", "XtTokens.cfg"), workers=4, coverage=False)     # thorough: 14 425 sequences x 4 alphabets
     run.add_mc(gen, "XtTokens: TLC enumerates every token index sequence up to the length bound (one initial state each)")
     os.environ["XT_TOKS"] = write_lines(os.path.join(WORK, "toks_c02_%s.ndjson" % run.tier), sorted(set(tlc_printed(gen["out"], "TOKS"))))
-    obs_stage(run, "tokens", 0, ["C02"], "every sequence of <= 2 (thorough: 3) tokens over each format's 24-token alphabet x named/detected x slice, one-piece reader, byte-by-byte reader")
+    obs_stage(run, "tokens", 0, ["C02"], "every sequence of <= 2 (thorough: 3) tokens over each format's 26-token alphabet x named/detected x slice, one-piece reader, byte-by-byte reader")
 
 
 def c03(run):
@@ -382,12 +382,39 @@ def c03(run):
               tty_maxlen=0, file_maxlen=0)
 
 
+def cli_lag_stage(run):
+    """The streaming contract seen from the command line: documents are fed one at a time into xt's standard
+    input or into a FIFO operand while stdout is watched; each run is an XtObs history validated by TLC."""
+    import clicheck, clilag, cli
+    root = clicheck.prepare("%s-lag-%s" % (run.pid, run.tier))
+    xt_dbg, xt_rel = common.build_xt("debug"), common.build_xt("release")
+    jobs = [(xt_rel if n % 2 else xt_dbg, c) for n, c in enumerate(clilag.CASES * _q(run, 1, 4))]
+    runs = cli.pmap(lambda j: clilag.one_case(j[0], root, *j[1], ndocs=_q(run, 8, 24)), jobs, workers=8)
+    path = os.path.join(WORK, "trace_%s_clilag_%s.ndjson" % (run.pid, run.tier))
+    line = 1
+    with open(path, "w") as f, open(path + ".idx", "w") as idx:
+        for (binary, c), recs in zip(jobs, runs):
+            idx.write(json.dumps({"line": line, "case": {"label": "cli-lag", "to": "json", "source": c[0], "via": c[1], "explicit": c[2],
+                                                          "binary": "debug" if "debug" in binary else "release", "calls": []}}) + "\n")
+            for r in recs:
+                f.write(json.dumps(r) + "\n")
+            line += len(recs)
+    run.evaluations += len(jobs)
+    run.nontrivial += len(jobs)
+    run.samples.append({"cli_lag_case": {"source": jobs[0][1][0], "via": jobs[0][1][1], "records": runs[0][:6]}})
+    run.stages.append({"stage": "cli-lag", "what": "documents fed one at a time into stdin / a FIFO operand of the real binaries, stdout watched", "runs": len(jobs)})
+    validate_obs(run, path, ["C05", "C03"], "command-line streaming: stdin and FIFO operands, 3 sources, named and detected (lag bound 3: library bound + the CLI's 8 KiB stdout buffer)",
+                 cfg="Trace_XtObs_cli.cfg")
+    shutil_rm(root)
+
+
 def c05(run):
     run.rule = ("each case = a stream of 10-120 small documents read through a packetising reader (one document per read, document starts, every third "
                 "document, half documents, single bytes, random); at every read request TLC requires delivered - written <= 2 (XtObs!ObsRead); "
                 "distinct by stream, target, schedule and source selection")
     run.assumptions += OBS_ASSUME
     pipeline_stage(run)
+    cli_lag_stage(run)
     obs_stage(run, "lag", _q(run, 9, 150), ["C05"], "bounded lag at every read request, 3 streaming sources x 3 targets x 6 packetisations x explicit/detected")
     # memory half: measured peak heap growth, N vs 4N documents, judged by spec/XtMem.tla
     path = os.path.join(WORK, "trace_C05_mem_%s.ndjson" % run.tier)
@@ -410,6 +437,8 @@ def c08(run):
     run.assumptions += OBS_ASSUME
     pipeline_stage(run)
     obs_stage(run, "toml", _q(run, 600, 10000), ["C08"], "TOML target: every root kind, refusals at every nesting position, 1-3 calls, four sources, slice and reader")
+    # value side: what is written reads back as the input value; what cannot is refused and nothing is written
+    data_stage(run, "record-toml", _q(run, 60, 1500), "documents TOML can hold (full-precision floats, every key style, arrays of tables) and the same with one planted null / oversized integer / binary / non-string key / repeated key / non-table root, from every source format, slice and reader")
     # the same rule seen from the command line: one TOML document per invocation, whatever the inputs
     cli_stage(run, _q(run, "MC_XtCli_c08.cfg", "MC_XtCli_c08_thorough.cfg"), "TOML target on the command line: a second input holding a document is refused, nothing is written for it (TomlOnce)",
               tty_maxlen=0, file_maxlen=0)
@@ -503,7 +532,10 @@ def depth_cases(run):
     cases = []
     for fmt, (lim, shapes) in DEPTH_WINDOWS.items():
         span = _q(run, range(-3, 4), range(-5, 6))
-        depths = sorted(set([1, 2, 16, 64] + [lim + d for d in span] + far))
+        # (libyaml's scanner is quadratic in the flow depth - 60 000 levels take about half a minute, a million
+        # would take hours - and the text formats gain nothing beyond 100 000)
+        cap = {"yaml": 60000, "json": 100000, "toml": 100000}.get(fmt, 10 ** 9)
+        depths = sorted(set([1, 2, 16, 64] + [lim + d for d in span] + [min(d, cap) for d in far]))
         for shape in shapes:
             for depth in depths:
                 if fmt in ("json", "yaml", "toml") and depth > 200000 and shape != "arr":
@@ -691,7 +723,7 @@ def run_worker_batches(cases, worker_cmd, per_batch=20000, batch_timeout=60, max
 
 def c04(run):
     import cli, subprocess
-    run.rule = ("each case = one translate call: (1) every sequence of <= 3 (thorough: 4) tokens over each format's 24-token alphabet, enumerated by TLC (XtTokens); "
+    run.rule = ("each case = one translate call: (1) every sequence of <= 3 (thorough: 4) tokens over each format's 26-token alphabet, enumerated by TLC (XtTokens); "
                 "(2) adversarial shapes (length prefixes up to 2^32-1, nested claims, alias bombs, lone anchors, deep block/flow nesting, empty input, 16-bit map boundaries); "
                 "(3) structure-aware mutations and valid documents with a value the target refuses at a random tree path; each under its own format and under detection, "
                 "to all targets, slice and reader with varying read sizes, in an isolated worker with a deadline; the adversarial and mutated cases also through the debug and release binaries. "
@@ -913,7 +945,11 @@ def c15(run):
         extra.append(v)
     cli_stage(run, _q(run, "MC_XtCli_c15.cfg", "MC_XtCli_c15_thorough.cfg"), "finished inputs are on the descriptor at every exit (Survives, AllOut)",
               tty_maxlen=0, file_maxlen=9, extra_vectors=extra)
-    run.assumptions += ["stdout is a pipe read to the end, or a regular file"]
+    # "at a successful exit every byte of output has been written": a descriptor that refuses the bytes
+    # (/dev/full) when the buffer is finally flushed must not end in exit 0
+    cli_stage(run, "MC_XtCli_c15_full.cfg", "a descriptor that refuses the flushed bytes is never a successful exit (NoSuccessWithLostOutput)",
+              failing_stdout=True)
+    run.assumptions += ["stdout is a pipe read to the end, a regular file, or /dev/full"]
     run.exhaustive = True
 
 
@@ -1041,7 +1077,7 @@ def data_stage(run, cmd, count, what):
     run.add_harness(summ, "recorded: " + what)
     common.sh(["python3", os.path.join(common.VERIF, "tools", "lib", "enrich.py"), raw, path], check=True, timeout=3000)
     listed = sorted(k["key"] for k in common.known_findings() if k["property"] == run.pid)
-    env = {"XT_DEVS": ",".join(listed) or "none"}
+    env = {"XT_DEVS": ",".join(listed) or "none", "XT_ORDER": "free" if run.pid == "C08" else "fixed"}
     cur = path
     n = 0
     while True:
